@@ -401,3 +401,85 @@ def install_merge(nmfu):
             return new_dfa, cfs
         return _merge
     wrap(nmfu.CaseNode, "_merge", mk_merge)
+
+
+def install_fallthrough(nmfu):
+    """C04: DfaCompileCtx.compile returns normally => no cycle of non-consuming moves on any single symbol (condition outcomes and
+    conditional redirects taken either way; out-of-space redirects are reported separately because they need a full buffer)"""
+    REC = core.REC
+    SY = symbols(nmfu)
+    M = nmfu.ActionOverrideMode
+
+    def moves(state, sym):
+        """non-consuming successors of `state` on `sym`: list of (target, via_oos)"""
+        out = []
+        if isinstance(state, nmfu.DFConditionPoint):
+            ts = list(state.transitions)
+        else:
+            t = lookup(nmfu, state, sym)
+            ts = [t] if t is not None else []
+        for t in ts:
+            normal = True
+            for a in t.actions:
+                for sub in a.all_subactions():
+                    if isinstance(sub, (nmfu.AppendTo, nmfu.AppendCharTo)):
+                        out.append((sub.end_target, True))      # redispatch at the handler without consuming
+                m = a.get_target_override_mode()
+                if m == M.ALWAYS_GOTO_UNDEFINED:
+                    normal = False
+                    break
+                if m == M.ALWAYS_GOTO_OTHER:
+                    normal = False
+                    if t.is_fallthrough:
+                        out.extend((x, False) for x in a.get_target_override_targets()[:1])
+                    break
+                if m == M.MAY_GOTO_TARGET and t.is_fallthrough:
+                    for sub in a.all_subactions():
+                        if isinstance(sub, nmfu.BreakAction):
+                            out.append((sub.refers_to.end_state, False))
+            if normal and t.is_fallthrough and t.target is not None:
+                out.append((t.target, False))
+        return out
+
+    def mk_compile(orig):
+        def compile(self):
+            r = orig(self)
+            if not REC.enabled:
+                return r
+            states = list(self.dfa.states)
+            # group symbols by the tuple of transitions they select (same moves)
+            groups = {}
+            for s in SY:
+                key = tuple(id(lookup(nmfu, st, s)) if not isinstance(st, nmfu.DFConditionPoint) else 0 for st in states)
+                groups.setdefault(key, s)
+            nchk = 0
+            def has_cycle(sym, include_oos):
+                color = {}
+
+                def dfs(u):
+                    color[id(u)] = 1
+                    for (v, oos) in moves(u, sym):
+                        if v is None or (oos and not include_oos):
+                            continue
+                        c = color.get(id(v), 0)
+                        if c == 1:
+                            return True
+                        if c == 0 and dfs(v):
+                            return True
+                    color[id(u)] = 2
+                    return False
+                for st in states:
+                    if color.get(id(st), 0) == 0 and dfs(st):
+                        return True
+                return False
+            for s in groups.values():
+                nchk += len(states)
+                if has_cycle(s, False):
+                    REC.fail("DfaCompileCtx.compile/C04-no-nonconsuming-cycle", f"program accepted although on symbol {symname(s)} control can go round through fall-through / condition / break moves without consuming input")
+                    return r
+                if has_cycle(s, True):
+                    REC.ok("DfaCompileCtx.compile/oos-cycle-seen")
+            REC.ok("DfaCompileCtx.compile/C04", nchk)
+            return r
+        return compile
+    wrap(nmfu.DfaCompileCtx, "compile", mk_compile)
